@@ -478,9 +478,47 @@ fn run_case(line: &str) -> String {
 }
 
 fn main() {
-    rbverif::line_loop(|line| {
-        let r = run_case(line);
-        r
-    });
+    // Every case runs in its own thread with a deadline: a send that never terminates is reported as
+    // HANG and the process exits (the driver re-runs the remaining lines in a fresh process).
+    use std::io::{BufRead, Write};
+    std::panic::set_hook(Box::new(|_| {}));
+    let deadline = std::env::var("VERIF_C10_DEADLINE_S").ok().and_then(|s| s.parse().ok()).unwrap_or(60u64);
+    let stdin = std::io::stdin();
+    let stdout = std::io::stdout();
+    for line in stdin.lock().lines() {
+        let line = line.unwrap();
+        let (tx, rx) = std::sync::mpsc::channel();
+        let l2 = line.clone();
+        std::thread::spawn(move || {
+            let r = std::panic::catch_unwind(|| run_case(&l2));
+            let s = match r {
+                Ok(s) => s,
+                Err(e) => {
+                    let msg = if let Some(s) = e.downcast_ref::<&str>() {
+                        s.to_string()
+                    } else if let Some(s) = e.downcast_ref::<String>() {
+                        s.clone()
+                    } else {
+                        "?".to_string()
+                    };
+                    format!("PANIC {}", msg.replace('\n', " "))
+                }
+            };
+            let _ = tx.send(s);
+        });
+        let mut out = stdout.lock();
+        match rx.recv_timeout(std::time::Duration::from_secs(deadline)) {
+            Ok(s) => {
+                writeln!(out, "{}", s).unwrap();
+                out.flush().unwrap();
+            }
+            Err(_) => {
+                writeln!(out, "HANG").unwrap();
+                out.flush().unwrap();
+                rbverif::conn::cleanup_scratch();
+                std::process::exit(3);
+            }
+        }
+    }
     rbverif::conn::cleanup_scratch();
 }
